@@ -527,7 +527,7 @@ class VarsManager(object):
             if i not in name_list:
                 name_list.append(i)
 
-        def same_real(name_list):
+        def same_real(name_list, members=()):
             name_list = [i for i in name_list if i in self.variables]
             if len(name_list) == 0:
                 return
@@ -543,12 +543,22 @@ class VarsManager(object):
                             self.trainable_vars.remove(name_list[0])
             for name in name_list:
                 self.variables[name] = var
+            # the other members of merged groups follow the new head as well
+            for name in members:
+                if name in self.variables:
+                    self.variables[name] = var
 
         if cplx:
-            same_real([name + "r" for name in new_name_list])
-            same_real([name + "i" for name in new_name_list])
+            same_real(
+                [name + "r" for name in new_name_list],
+                [name + "r" for name in name_list],
+            )
+            same_real(
+                [name + "i" for name in new_name_list],
+                [name + "i" for name in name_list],
+            )
         else:
-            same_real(new_name_list)
+            same_real(new_name_list, name_list)
         self.same_list.append(name_list)
 
     def get(self, name, val_in_fit=True):
